@@ -1,4 +1,5 @@
 import MirVerif.Lemmas.TextIOLexRT
+import MirVerif.Lemmas.TextIOLexHex
 /-! # C10 — every piece the writer model emits for a well-formed module is individually readable and
 properly delimited; hence `lexAll (printText ms) = toks (ltText ms)` -/
 namespace TextIO
@@ -237,7 +238,7 @@ def lexDataEl (t : Ty) (v : Nat) : Bool :=
   | .f => floatRT fmtF (v % 2 ^ 32)
   | .d => floatRT fmtD (v % 2 ^ 64)
   | .ld => floatRT fmtLD (v % 2 ^ 80)
-  | .p | .blk0 | .blk1 | .blk2 | .blk3 | .blk4 | .rblk => false
+  | .blk0 | .blk1 | .blk2 | .blk3 | .blk4 | .rblk => false
   | _ => true
 
 def lexItem : Item → Bool
@@ -648,6 +649,12 @@ theorem valid_ltDataEl {t : Ty} {v : Nat} (h : lexDataEl t v = true) : ValidLT (
   · exact valid_flt (by simpa [BitVec.toNat_ofNat] using h)
   · exact valid_dbl (by simpa [BitVec.toNat_ofNat] using h)
   · exact valid_ldbl (by simpa [BitVec.toNat_ofNat] using h)
+  · refine ⟨?_, by simp, by simp [startOK]⟩
+    have := wordOK_hex (n := v % 2 ^ 64) (hm 64)
+    have he : BitVec.ofNat 64 (v % 2 ^ 64) = BitVec.ofNat 64 v := by
+      apply BitVec.eq_of_toNat_eq; simp [BitVec.toNat_ofNat]
+    rw [he] at this
+    exact this
   all_goals simp at h
 
 theorem okC_ltDataEnd (t : Ty) (els : List Nat) : OkC (ltDataEnd t els) ∧ startsDelim (ltDataEnd t els) = true := by
